@@ -258,6 +258,10 @@ def pure_calls():
     A(("surface.calc_cum_abs_surface_energy", ["asig", "tt"], lambda s, tt: surface.calc_cum_abs_surface_energy(s, tt, nodal=False, stt=0.02, trim=True, start=True)))
     A(("surface.calc_surface_energy(array reductions)", ["asig", "tt", "red"], lambda s, tt, red: surface.calc_surface_energy(s, tt, up_red=red, down_red=red)))
     A(("surface.get_time_shift_motions", ["asig", "tt"], lambda s, tt: surface.get_time_shift_motions(s, tt)))
+    # corner of the travel-time domain: nothing to pad (surface point / less than half a sample), scalar reductions != 1
+    A(("surface.calc_surface_energy(tt=0, up_red=0.8)", ["asig"], lambda s: surface.calc_surface_energy(s, np.array([0.0]), up_red=0.8, down_red=0.6)))
+    A(("surface.calc_cum_abs_surface_energy(scalar tt < dt/2)", ["asig"], lambda s: surface.calc_cum_abs_surface_energy(s, 0.003, nodal=False, up_red=0.7, down_red=0.9)))
+    A(("surface.get_time_shift_motions(tt=0)", ["asig"], lambda s: surface.get_time_shift_motions(s, 0.0, up_red=0.5, down_red=0.5)))
     A(("multiple.combine_at_angle", ["asig", "asig2"], lambda s, s2: multiple.combine_at_angle(s, s2, 30.0).values))
     A(("multiple.compute_rotated", ["asig", "asig2"], lambda s, s2: multiple.compute_rotated(s, s2, parameter="pga", points=7)))
     A(("Signal(...)", ["v"], lambda v: eqsig.Signal(v, DT).values))
@@ -311,6 +315,39 @@ def make_env(dtype, container, seed, shape="generic"):
     return env
 
 
+def perturbed(a):
+    """same type, shape, length and end values; interior changed"""
+    import eqsig
+    if isinstance(a, np.ndarray) and a.ndim == 1 and len(a) >= 3 and a.dtype.kind in "fiu":
+        b = a.copy()
+        k = 2 if len(a) >= 7 else 1           # keep the first and last two entries (a leading zero bin may be stripped)
+        b[k:-k] = b[k:-k][::-1]
+        if np.array_equal(b, a):
+            b[k] = b[k] + (1 if a.dtype.kind in "iu" else 0.123)
+        return b
+    if isinstance(a, np.ndarray):
+        return a.copy()
+    if isinstance(a, list) and len(a) >= 3:
+        return [a[0]] + a[1:-1][::-1] + [a[-1]]
+    if hasattr(a, "values") and hasattr(a, "dt"):
+        v = perturbed(np.array(a.values))
+        kw = {"response_times": np.array(a.response_times)} if hasattr(a, "response_times") else {}
+        return type(a)(v, a.dt, **kw)
+    return a
+
+
+def shortened(a):
+    import eqsig
+    if isinstance(a, np.ndarray) and a.ndim == 1 and len(a) >= 4:
+        return a[:-1].copy()
+    if isinstance(a, list) and len(a) >= 4:
+        return a[:-1]
+    if hasattr(a, "values") and hasattr(a, "dt"):
+        kw = {"response_times": np.array(a.response_times)} if hasattr(a, "response_times") else {}
+        return type(a)(np.array(a.values)[:-2], a.dt, **kw)
+    return a
+
+
 def pure_events(rep, tier, seed):
     recs = []
     calls = pure_calls()
@@ -329,9 +366,25 @@ def pure_events(rep, tier, seed):
             with warnings.catch_warnings():
                 warnings.simplefilter("ignore")
                 try:
+                    # history: first a call with OTHER arguments of the same shapes, lengths and end values ...
+                    try:
+                        fn(*[perturbed(a) for a in args])
+                    except Exception:
+                        pass
                     r1 = fn(*args)
                     res1 = digest(r1)
                     mid = [digest(a) for a in args]
+                    # between the two calls the function is called with OTHER arguments of the same shapes, lengths and
+                    # end values (a result remembered under a partial key must not leak into the second call)
+                    try:
+                        fn(*[perturbed(a) for a in args])
+                    except Exception:
+                        pass
+                    # ... and one with different lengths / end values, so that anything remembered is displaced
+                    try:
+                        fn(*[shortened(a) for a in args])
+                    except Exception:
+                        pass
                     r2 = fn(*args)
                     res2 = digest(r2)
                 except Exception as ex:
